@@ -52,8 +52,9 @@ def tier_v(pid, replays_dir):
                      verdict=o['verdict'], model=o.get('model'), solver_output=o.get('solver_output'),
                      what=f"obligation {o['name']} of {r['qual']} ({r['file']}:{o.get('line')}) {o['verdict']}")
             native = None
-            if o.get('model') is not None and r.get('replay'):
-                native = common.native_replay(r['replay'], o['model'])
+            if r.get('replay'):
+                # the real function on the counter-model's inputs; replayers that search natively around the failed obligation need no model
+                native = common.native_replay(r['replay'], o.get('model') or {})
             v['native'] = native
             v['confirmed'] = bool(native and native.get('violates'))
             viol.append(v)
